@@ -114,7 +114,8 @@ def cases(draw):
     return {'dest': dest, 'byname': draw(st.booleans()),
             'default_source': draw(st.one_of(st.none(), source_st)),
             'termination': draw(st.sampled_from(['shutdown', 'abort', 'handler', 'ctrl_abort', 'ctrl_shutdown'])),
-            'sender_name': draw(st.one_of(st.sampled_from(['snd', '_ext_', '_ext_x', 'x_ext_', '_x', 'ext_', 'a b']),
+            'sender_name': draw(st.one_of(st.sampled_from(['snd', '_ext_', '_ext_x', 'x_ext_', '_x', 'ext_', 'a b', '_ext_door-1', '_ext_a.b',
+                                                           '_ext_ x', '_-', '_ ', '_ext_\n', '_\u00e9', '_ext_x y']),
                                           st.text(min_size=0, max_size=6))),
             'finalize_first': draw(st.booleans()), 'eager_attempt': draw(st.integers(0, 3)) == 0,
             'persistent': draw(st.booleans()),
